@@ -185,15 +185,37 @@ func (in *msInst) apply(ops []Op, h *MSHist) {
 
 type content []map[string]string // per IAVL store
 
+// dump reads every store three ways — ascending iteration, descending iteration and point reads of every key
+// of the alphabet — and reports any disagreement between them as content under a marker key.
 func (in *msInst) dump(h *MSHist) content {
 	out := make(content, h.NStores)
 	for i, k := range in.keys {
 		m := map[string]string{}
-		it := in.rs.GetKVStore(k).Iterator(nil, nil)
+		st := in.rs.GetKVStore(k)
+		it := st.Iterator(nil, nil)
 		for ; it.Valid(); it.Next() {
 			m[string(it.Key())] = string(it.Value())
 		}
 		it.Close()
+		n := 0
+		rit := st.ReverseIterator(nil, nil)
+		for ; rit.Valid(); rit.Next() {
+			n++
+			if v, ok := m[string(rit.Key())]; !ok || v != string(rit.Value()) {
+				m["\x00!reverse-iterator-disagrees:"+string(rit.Key())] = string(rit.Value())
+			}
+		}
+		rit.Close()
+		if n != len(m) {
+			m["\x00!reverse-iterator-count"] = fmt.Sprint(n)
+		}
+		for _, key := range keyAlphabet {
+			v := st.Get([]byte(key))
+			mv, ok := m[key]
+			if (v != nil) != ok || (ok && string(v) != mv) || st.Has([]byte(key)) != ok {
+				m["\x00!get-disagrees:"+key] = string(v)
+			}
+		}
 		out[i] = m
 	}
 	return out
